@@ -85,7 +85,7 @@ func zzC06(nPods int) {
 
 	rs := zzReplicaSet()
 	canaryPresent, _, _, canarySince := zzRSCond(rs, "condCanary", datadoghqv1alpha1.ConditionTypeCanary, true)
-	restartPresent, _, restartLast, restartFirst := zzRSCond(rs, "condRestarting", datadoghqv1alpha1.ConditionTypePodRestarting, true)
+	restartPresent, restartTrue, restartLast, restartFirst := zzRSCond(rs, "condRestarting", datadoghqv1alpha1.ConditionTypePodRestarting, true)
 	_, prevCondPaused, _, _ := zzRSCond(rs, "condPaused", datadoghqv1alpha1.ConditionTypeCanaryPaused, false)
 	_, prevFailed, _, _ := zzRSCond(rs, "condFailed", datadoghqv1alpha1.ConditionTypeCanaryFailed, false)
 
@@ -230,6 +230,22 @@ func zzC06(nPods int) {
 		if c.Type == datadoghqv1alpha1.ConditionTypeCanaryPaused {
 			pausedCond = c.Status == corev1.ConditionTrue
 		}
+	}
+	// "the span between the first and the latest observed restart": the record of the restarts seen so
+	// far (the PodRestarting condition: first = last transition, latest = last update) is only ever
+	// extended by a newer restart; a sync that observes none leaves it exactly as it was
+	newer := false
+	for _, cp := range pods {
+		newer = nondet.Or(newer, nondet.And(cp.restarts > 0, cp.hasFinished, cp.finishedAt.After(restartLast)))
+	}
+	if restartPresent {
+		kept := false
+		for _, c := range res.NewStatus.Conditions {
+			if c.Type == datadoghqv1alpha1.ConditionTypePodRestarting {
+				kept = nondet.And((c.Status == corev1.ConditionTrue) == restartTrue, c.LastTransitionTime.Time.Equal(restartFirst), c.LastUpdateTime.Time.Equal(restartLast))
+			}
+		}
+		nondet.Assert("C06.restart-record-kept", nondet.Implies(!newer, kept))
 	}
 	nondet.Assert("C06.cond.failed", failedCond == res.IsFailed)
 	nondet.Assert("C06.cond.paused", pausedCond == res.IsPaused)
